@@ -16,7 +16,7 @@ ASSUMPTIONS = [
     "losslessness of the real zlib/bz2/brotli/snappy streams (C libraries, input-length-dependent loops) is outside solver reach: decided here is everything around them (which (de)compressor is used, reset vs reuse, window sizes per direction, tail strip/re-append, RSV1 rules, negotiation); permessage-bzip2 is driven end to end over a one-stream-per-message codec model (6 negotiation settings) and permessage-brotli over a contract model measured on brotli 1.2.0 (7 context-takeover settings incl. local overrides); the snappy classes (python-snappy is not installed) are not driven",
     "window-size and memory-level values are case-split over {0, 8, 9, 12, 15, 16} resp. {None, 1, 9, 10} (in- and out-of-range), booleans free",
 ]
-BOUNDS = {"quick": "offer x accept lattice: 2^3 x 6 offer parameters x 2 x 6 x 3 x 7 x 4 accept parameters, response x response-accept lattice likewise; end-to-end pairs: 12 negotiation settings x 3 messages per direction x {whole, fragmented, streaming, prepared, do-not-compress} with free payload octets; 14 malformed extension responses; compressed control frame / RSV1 on continuation",
+BOUNDS = {"quick": "offer x accept lattice: 2^3 x 6 offer parameters x 2 x 6 x 3 x 7 x 4 accept parameters, response x response-accept lattice likewise; end-to-end pairs: 12 negotiation settings x 3 messages per direction x {whole, fragmented, streaming, prepared, do-not-compress} with free payload octets; 14 malformed extension responses; compressed control frame / RSV1 on continuation; permessage-brotli over a contract model in 7 context-takeover settings x 4 send APIs; control frames between compressed fragments (api streaming+ctl)",
           "thorough": "all window sizes 8..16, 4 messages per direction"}
 EXPECT_COVERS = ["pair:ctl-between-fragments", "pair:bzip2", "pair:brotli", "lattice:accept-ok", "lattice:accept-raises", "lattice:offer-raises", "pair:delivered", "pair:uncompressed", "client:refuses", "rx:rsv-violation"]
 BUDGET = {"quick": dict(wall_s=300, max_paths=60000, diff_samples=3), "thorough": dict(wall_s=2400, max_paths=600000)}
